@@ -12,6 +12,8 @@ package c14
 import (
 	"encoding/json"
 	"fmt"
+	"github.com/aergoio/aergo/v2/pkg/component"
+	"github.com/aergoio/aergo/v2/types/message"
 	"math/big"
 	"regexp"
 	"runtime"
@@ -137,7 +139,14 @@ var callNames = []string{"v1stake", "v1unstake", "v1voteBP", "v1voteDAO", "v1cre
 	"appendAdmin", "removeAdmin", "setConf", "appendConf", "removeConf", "enableConf", "disableConf", "changeCluster", "v1nosuch", "", "v2stake"}
 
 func drawPayload(t *rapid.T, w *vnode.World) (string, []byte) {
-	switch rapid.IntRange(0, 11).Draw(t, "payloadKind") {
+	switch rapid.IntRange(0, 12).Draw(t, "payloadKind") {
+	case 12:
+		// a program for the stub VM (calls and fee-delegated calls to the deployed contract)
+		var ops [][]string
+		for i, n := 0, rapid.IntRange(0, 3).Draw(t, "nops"); i < n; i++ {
+			ops = append(ops, rapid.SampledFrom([][]string{{"set", "a", "1"}, {"del", "a"}, {"event", "e"}, {"burn", "200000"}, {"fail", "boom"}, {"sysfail"}, {"set"}, {"nosuchop"}}).Draw(t, "sop"))
+		}
+		return fmt.Sprintf("stub:%v", ops), vnode.StubProgram(ops...)
 	case 0:
 		return "raw:empty", nil
 	case 1:
@@ -245,6 +254,10 @@ func TestC14Admission(t *testing.T) {
 		pre = append(pre, mk(1, 1, types.TxType_GOVERNANCE, []byte(types.AergoSystem), vnode.StakeMin, ci("v1stake")))
 		pre = append(pre, mk(0, 2, types.TxType_GOVERNANCE, []byte(types.AergoName), vnode.Aergo, ci("v1createName", "name00000001")))
 		pre = append(pre, mk(2, 1, types.TxType_DEPLOY, nil, new(big.Int), []byte("stub-code")))
+		// the contract accepts fee delegation (stub VM switch) and owns some coin to pay fees with
+		fdContract := vnode.DeployedAddress(vnode.KeyN(2).Addr, 1)
+		pre = append(pre, mk(2, 2, types.TxType_CALL, fdContract, new(big.Int), vnode.StubProgram([]string{"set", "_fd", "1"})))
+		pre = append(pre, mk(1, 2, types.TxType_TRANSFER, fdContract, new(big.Int).Mul(vnode.Aergo, big.NewInt(5)), nil))
 		p, err := N.Produce(prev, prev.GetHeader().GetTimestamp()+1e9, pre, nil)
 		if err != nil {
 			t.Fatal(err)
@@ -255,6 +268,9 @@ func TestC14Admission(t *testing.T) {
 		prev = p.Block
 		N.SwitchTo()
 		mp := mempool.VerifNew(N.CS.VerifCfg(), N.CS, prev)
+		// the pool asks the chain service for the fee-delegation verdict: answered as the chain worker does
+		poolHub := component.NewComponentHub()
+		poolHub.Register(vnode.NewFDAnswerer(N), mp, vnode.NewRec(message.P2PSvc), vnode.NewRec(message.RPCSvc), vnode.NewRec(message.SyncerSvc))
 		d, err := N.DumpAt(prev.GetHeader().GetBlocksRootHash())
 		if err != nil {
 			t.Fatal(err)
@@ -264,8 +280,17 @@ func TestC14Admission(t *testing.T) {
 		var descs []string
 		nontrivial := false
 		ntx := rapid.IntRange(1, 6).Draw(t, "ntx")
+		// coordinated parameter votes: the two stakers vote the same (possibly degenerate) value, so that it takes effect
+		daoFocus := opts.Consensus == "dpos" && rapid.IntRange(0, 5).Draw(t, "daoFocus") == 0
+		daoIssue := rapid.SampledFrom([]string{"GASPRICE", "NAMEPRICE", "STAKINGMIN", "BPCOUNT"}).Draw(t, "daoIssue")
+		daoValue := rapid.SampledFrom([]string{"0", "1", "3", "100", "-1", "340282366920938463463374607431768211456"}).Draw(t, "daoValue")
+		entFocus := !daoFocus && !opts.Public && rapid.IntRange(0, 5).Draw(t, "enterpriseFocus") == 0
+		if entFocus {
+			ntx = rapid.IntRange(2, 8).Draw(t, "ntxFocus")
+		}
 		next := map[int]uint64{}
 		var admitted []*types.Tx
+		daoAdmitted := 0
 		for k := 0; k < ntx; k++ {
 			from := rapid.IntRange(0, 2).Draw(t, "from")
 			if _, ok := next[from]; !ok {
@@ -295,6 +320,39 @@ func TestC14Admission(t *testing.T) {
 				rcpt = []byte(types.AergoVault)
 			}
 			pdesc, payload := drawPayload(t, w)
+			if daoFocus && k < 2 {
+				from = k
+				if _, ok := next[from]; !ok {
+					next[from] = d.Nonce(vnode.KeyN(from).Addr) + 1
+				}
+				typ = types.TxType_GOVERNANCE
+				payload, _ = json.Marshal(map[string]interface{}{"Name": "v1voteDAO", "Args": []interface{}{daoIssue, daoValue}})
+				pdesc = fmt.Sprintf("v1voteDAO/focus[%s %s]", daoIssue, daoValue)
+			}
+			if entFocus {
+				// a history of enterprise configuration calls (private networks): what one call stores is what the
+				// next one reads
+				typ = types.TxType_GOVERNANCE
+				name := rapid.SampledFrom([]string{"appendAdmin", "appendAdmin", "removeAdmin", "setConf", "appendConf", "removeConf", "enableConf", "disableConf"}).Draw(t, "entCall")
+				addrLike := func() interface{} {
+					return rapid.SampledFrom([]string{vnode.KeyN(0).Enc(), vnode.KeyN(1).Enc(), vnode.KeyN(2).Enc(), "abc", "name00000001", types.AergoSystem, "", "x.y"}).Draw(t, "entAddr")
+				}
+				var args []interface{}
+				switch name {
+				case "appendAdmin", "removeAdmin":
+					args = []interface{}{addrLike()}
+				case "enableConf", "disableConf":
+					args = []interface{}{rapid.SampledFrom([]string{"accountwhite", "rpcpermissions", "p2pwhite"}).Draw(t, "entKey"), rapid.Bool().Draw(t, "entOn")}
+				default:
+					args = []interface{}{rapid.SampledFrom([]string{"accountwhite", "rpcpermissions", "p2pwhite"}).Draw(t, "entKey"), addrLike()}
+				}
+				payload, _ = json.Marshal(map[string]interface{}{"Name": name, "Args": args})
+				pdesc = fmt.Sprintf("%s/focus%v", name, args)
+			}
+			if strings.HasPrefix(pdesc, "stub:") && rapid.IntRange(0, 9).Draw(t, "stubFix") > 0 {
+				rcpt = contractAddr
+				typ = rapid.SampledFrom([]types.TxType{types.TxType_CALL, types.TxType_FEEDELEGATION, types.TxType_FEEDELEGATION, types.TxType_NORMAL}).Draw(t, "stubType")
+			}
 			if typ == types.TxType_GOVERNANCE && rapid.IntRange(0, 9).Draw(t, "govRcptFix") > 0 {
 				// send the call to the contract that implements it
 				switch {
@@ -344,9 +402,14 @@ func TestC14Admission(t *testing.T) {
 				body.Account = []byte("name00000001") // owned by user 0: sign with its key below
 				from = 0
 			}
+			cleanVote := daoFocus && k < 2
+			if cleanVote {
+				// the two coordinated votes are otherwise well-formed
+				body.Recipient, body.Amount, body.GasLimit, body.GasPrice, body.Nonce, body.Account = []byte(types.AergoSystem), nil, 0, nil, next[from], vnode.KeyN(from).Addr
+			}
 			tx := &types.Tx{Body: body}
 			vnode.SignTx(tx, vnode.KeyN(from))
-			if rapid.IntRange(0, 29).Draw(t, "badSig") == 0 {
+			if !cleanVote && rapid.IntRange(0, 29).Draw(t, "badSig") == 0 {
 				tx.Body.Sign = rapid.SliceOfN(rapid.Byte(), 0, 80).Draw(t, "sig")
 				tx.Hash = tx.CalculateTxHash()
 			}
@@ -361,17 +424,7 @@ func TestC14Admission(t *testing.T) {
 			}
 			// (1) admission
 			var admitErr error
-			if typ == types.TxType_FEEDELEGATION {
-				// the pool asks the chain service actor for the fee-delegation verdict: not wired in this harness
-				classes["skipped-pool-for-feedelegation"] = true
-				pp, st := guard(func() { _, admitErr = mp.VerifVerify(tx) })
-				if pp != nil {
-					t.Fatalf("verification of a transaction panicked: %v\nat %s\n%s\n%s", pp, panicSite(st), input(), st)
-				}
-				if admitErr == nil {
-					admitErr = fmt.Errorf("not offered to the pool")
-				}
-			} else {
+			{
 				pp, st := guard(func() { admitErr = mp.VerifAdmit(tx) })
 				if pp != nil {
 					site := panicSite(st)
@@ -389,6 +442,9 @@ func TestC14Admission(t *testing.T) {
 			if body.Nonce == next[from] {
 				next[from]++
 				admitted = append(admitted, tx)
+				if daoFocus && k < 2 {
+					daoAdmitted++
+				}
 			}
 		}
 		// (2) execution of everything admitted, in both modes
@@ -411,6 +467,73 @@ func TestC14Admission(t *testing.T) {
 			}
 			if _, err := vb.Finish(true, vnode.KeyN(500).Addr); err != nil {
 				classes["finish-error"] = true
+			}
+		}
+		if daoFocus {
+			classes[fmt.Sprintf("coordinated-vote %s=%s admitted by %d of 2 stakers", daoIssue, daoValue, daoAdmitted)] = true
+		}
+		// (3) what the admitted transactions did to the node takes effect: they are put into a real block, the block is
+		// connected (parameter votes are activated at that point), and ordinary traffic must still be admitted or
+		// refused cleanly and execute without a crash on the new state
+		if len(admitted) > 0 && !classes["known:votebp-candidate-not-39-bytes"] {
+			N.SwitchTo()
+			var p2 *vnode.Produced
+			pp, st := guard(func() {
+				var err error
+				p2, err = N.Produce(prev, prev.GetHeader().GetTimestamp()+1e9, admitted, nil)
+				if err == nil {
+					err = N.AddOwn(p2)
+				}
+				if err != nil {
+					p2 = nil
+					classes["round2-block-not-made"] = true
+				}
+			})
+			if pp != nil {
+				t.Fatalf("producing / connecting a block of admitted transactions panicked: %v\nat %s\ntxs: %s\n%s", pp, panicSite(st), strings.Join(descs, " | "), st)
+			}
+			if p2 != nil {
+				N.SwitchTo()
+				mp2 := mempool.VerifNew(N.CS.VerifCfg(), N.CS, p2.Block)
+				hub2 := component.NewComponentHub()
+				hub2.Register(vnode.NewFDAnswerer(N), mp2, vnode.NewRec(message.P2PSvc), vnode.NewRec(message.RPCSvc), vnode.NewRec(message.SyncerSvc))
+				d2, err := N.DumpAt(p2.Block.GetHeader().GetBlocksRootHash())
+				if err != nil {
+					t.Fatal(err)
+				}
+				cid2 := mp2.VerifAcceptChainIDHash()
+				var ordinary []*types.Tx
+				for u := 0; u < 3; u++ {
+					n := d2.Nonce(vnode.KeyN(u).Addr)
+					specs := []*vnode.TxSpec{
+						{Kind: "transfer", From: u, Nonce: n + 1, Type: types.TxType_TRANSFER, Recipient: vnode.KeyN((u + 1) % 3).Addr, Amount: vnode.Aergo},
+						{Kind: "call", From: u, Nonce: n + 2, Type: types.TxType_CALL, Recipient: contractAddr, Amount: new(big.Int), Payload: vnode.StubProgram([]string{"set", "k", "v"}), GasLimit: 100000},
+						{Kind: "stake", From: u, Nonce: n + 3, Type: types.TxType_GOVERNANCE, Recipient: []byte(types.AergoSystem), Amount: vnode.StakeMin, Payload: vnode.CallInfo("v1stake")},
+						{Kind: "votedao", From: u, Nonce: n + 4, Type: types.TxType_GOVERNANCE, Recipient: []byte(types.AergoSystem), Amount: new(big.Int), Payload: vnode.CallInfo("v1voteDAO", "BPCOUNT", "3")},
+						{Kind: "name", From: u, Nonce: n + 5, Type: types.TxType_GOVERNANCE, Recipient: []byte(types.AergoName), Amount: vnode.Aergo, Payload: vnode.CallInfo("v1createName", fmt.Sprintf("round2name%02d", u))},
+					}
+					for _, sp := range specs {
+						tx := sp.Build(cid2)
+						var aerr error
+						pp, st := guard(func() { aerr = mp2.VerifAdmit(tx) })
+						if pp != nil {
+							t.Fatalf("after the block [%s] was connected, admission of an ordinary %s transaction panicked: %v\nat %s\n%s", strings.Join(descs, " | "), sp.Kind, pp, panicSite(st), st)
+						}
+						if aerr == nil {
+							ordinary = append(ordinary, tx)
+						} else {
+							break // later nonces of this sender would only wait
+						}
+					}
+				}
+				vb := N.NewVBlock(p2.Block.GetHeader().GetBlocksRootHash(), p2.Block.BlockNo()+1, p2.Block.GetHeader().GetTimestamp()+1e9, contract.ChainService)
+				for _, tx := range ordinary {
+					out := vb.Apply(tx)
+					if out.Panic != nil {
+						t.Fatalf("after the block [%s] was connected, execution of an ordinary transaction (type %v) that passed pool admission panicked: %v\nat %s\n%s", strings.Join(descs, " | "), tx.Body.Type, out.Panic, panicSite(out.Stack), out.Stack)
+					}
+				}
+				classes[fmt.Sprintf("round2-ordinary-admitted=%d", min(len(ordinary), 5))] = true
 			}
 		}
 		var cl []string
